@@ -90,15 +90,6 @@ def cached_quantity(f):
         if not recalc.get(name, True):
             return getattr(self, prop)
 
-        # Otherwise, if its in recalc, and needs updating, just update it
-        elif name in recalc:
-            value = f(self)
-            setattr(self, prop, value)
-
-            # Ensure it doesn't need to be recalculated again
-            recalc[name] = False
-
-            return value
 
         # Otherwise, we need to create its index for caching.
         # if name is already there, can only be because the method has been supered.
